@@ -9,6 +9,7 @@ import Compress.Drv.XFlateOpen
 import Compress.Drv.XFlateWriter
 import Compress.Drv.Prefix
 import Compress.Drv.Flate
+import Compress.Drv.Window
 
 open Compress.Util Compress.Drv
 
@@ -25,6 +26,7 @@ def processLine (line : String) : String :=
       | "xo" => handleXo kv
       | "xw" => handleXw kv
       | "fl" => handleFl kv
+      | "win" => handleWin kv
       | "gp" => handleGp kv
       | "gl" => handleGl kv
       | "dec" => handleDec kv
